@@ -9,14 +9,31 @@ fails on the implementation for this input.
 
 History: on the pinned tree `rotations` was narrowed to float and `laststep = ceil(steps*rotations)`: `-N 100 -T 0.3` took
 31 steps, `-T 0.6` 61, so 0.3 + 0.3 ended one step after 0.6 - found by this stage (finding
-`split-step-count-not-additive`, fixed in the repo: doubles and a 1e-12 guard against rounding noise)."""
-import os
+`split-step-count-not-additive`, fixed in the repo: doubles and a 1e-12 guard against rounding noise).
+
+Family laststep (theorems C11_laststep_* / C11_source_laststep_*, Proofs/LastStepP.v, Gen/Gen_LastStep.v):
+ * splits whose second leg is a fraction of a step (T1 = k1/N, T2 = f/N with f = 1e-3 .. 1e-10): the counts must be
+   k1, 1, k1+1 - a guard factor that eats intended fractions, `std::round` or `std::floor` show here;
+ * every run's executed step count (read from the final time tag) is compared with what the theorems say for run
+   lengths in their domain (`spec_steps`): k for T = k/N, m+1 for m(1+2e-12) <= N*T <= m+1;
+ * `model_pairs`: the mirror `h5_cases.laststep_of` against the extracted `Records.laststep` on 10^4 generated
+   (steps, rotations) pairs - on the step grid up to 2^30, decimal run lengths, products within 1e-15..1e-9 (relative) of
+   whole numbers on either side, non-integer steps per period - and both against the theorems where they apply."""
+import math, os
 from decimal import Decimal
+from fractions import Fraction
 from vp_common import *
 import h5_cases as hc
 
 FIXED = [(100, "0.3", "0.3"), (100, "0.07", "0.07"), (10, "0.3", "0.3"), (100, "0.25", "0.5"), (20, "0.35", "0.15"),
-         (50, "0.1", "0.2"), (25, "0.2", "0.4")]
+         (50, "0.1", "0.2"), (25, "0.2", "0.4"),
+         # second leg = a fraction of a step (1e-5, 1e-7, 1e-10 steps): 30+1 = 31, 7+1 = 8, 3+1 = 4
+         (1000, "0.03", "0.00000001"), (100, "0.07", "0.000000001"), (10, "0.3", "0.00000000001")]
+MARGIN = Fraction(2, 10 ** 12)          # frac_margin of Proofs/LastStepP.v
+
+
+def dec(x):
+    return format(Decimal(x), "f")
 
 
 def cases(rng, quick):
@@ -24,8 +41,30 @@ def cases(rng, quick):
     for _ in range(3 if quick else 40):
         N = rng.choice([10, 20, 25, 40, 50, 100])
         k1, k2 = rng.randint(1, N), rng.randint(1, N // 2)
-        cs.append((N, str(Decimal(k1) / Decimal(N)), str(Decimal(k2) / Decimal(N))))
+        cs.append((N, dec(Decimal(k1) / Decimal(N)), dec(Decimal(k2) / Decimal(N))))
+    for _ in range(2 if quick else 30):
+        N = rng.choice([10, 20, 25, 40, 50, 100, 1000])
+        k1 = rng.randint(1, min(N, 60))
+        f = Decimal(rng.choice([1, 2, 4, 5])) / Decimal(10) ** rng.randint(1, 9)        # 0.5 .. 1e-9 steps (relative excess >= 1.6e-11)
+        cs.append((N, dec(Decimal(k1) / Decimal(N)), dec(f / Decimal(N))))
     return cs
+
+
+def spec_steps(N, T):
+    """number of steps the theorems give for a run over the decimal run length T at N (integer) steps per period, or None
+    outside their domain: k for T = k/N exactly (C11_laststep_on_step_grid; the parser returns the double nearest to T),
+    m+1 for m*(1+2e-12) <= N*double(T) <= m+1 with m >= 1 (C11_laststep_fractional_rounds_up), 1 for 0 < N*double(T) <= 1
+    (C11_laststep_first_step)"""
+    x = Fraction(N) * Fraction(Decimal(T))
+    if x.denominator == 1 and 0 <= x <= 2 ** 30 and 1 <= N <= 2 ** 30:
+        return int(x)
+    xd = Fraction(N) * Fraction(float(T))
+    m = xd.numerator // xd.denominator
+    if m >= 1 and m * (1 + MARGIN) <= xd <= m + 1:
+        return m + 1
+    if Fraction(1, 2 ** 1000) <= xd <= 1:
+        return 1
+    return None
 
 
 def last_tag(h):
@@ -35,7 +74,7 @@ def last_tag(h):
 
 def run_splits(ctx, tg, dis):
     for i, (N, T1, T2) in enumerate(cases(ctx.rng, ctx.quick())):
-        T3 = str(Decimal(T1) + Decimal(T2))
+        T3 = dec(Decimal(T1) + Decimal(T2))
         kw = dict(n=16, steps=N, outstep=10 ** 6, save=1, gap=0, renorm=-1, padding=2, currents=[3e-4], zoom=1.3)
         wd = hc.workdir()
         try:
@@ -59,10 +98,21 @@ def run_splits(ctx, tg, dis):
             hs = [hc.h5cat(tg, f, only=["/PhaseSpace"]) for f in (f1, f2, f3)]
             tags = [last_tag(h)[0] for h in hs]
             # the mirror of main()'s laststep line against the file: final tag = float(laststep)/steps
+            X = [int(round(t * N)) for t in tags]          # executed steps (tags are binary32 values of k/N, k small)
+            case["executed_steps"] = X
             for Lk, tg_k, nm in zip(L, tags, ("leg 1", "leg 2", "single run")):
                 if tg_k != hc.f32(Lk / float(N)):
                     dis.append(dict(case=case, detail="%s: final time tag %r, predicted %d steps of 1/%d" % (nm, tg_k, Lk, N),
                                     sig=dict(kind="restart", stage="correspondence", what="laststep")))
+            # ... and the executed step counts against the theorems (run lengths in their domain)
+            for Xk, Tk, nm in zip(X, (T1, T2, T3), ("leg 1", "leg 2", "single run")):
+                sp = spec_steps(N, Tk)
+                if sp is not None:
+                    ctx.count("run-length:in-theorem-domain")
+                    if sp != Xk:
+                        ctx.violation("impl-oracle", "%s over T=%s synchrotron periods at %d steps per period executes %d steps; the requested time is "
+                                      "covered after exactly %d steps (C11_laststep_on_step_grid / C11_laststep_fractional_rounds_up)" % (nm, Tk, N, Xk, sp),
+                                      case=case, observed=Xk, expected=sp, sig=dict(kind="restart", clause="run-length", cause="laststep"))
             n = 16
             fin2 = hs[1].values("/PhaseSpace/data")[-n * n:]
             fin3 = hs[2].values("/PhaseSpace/data")[-n * n:]
@@ -71,22 +121,77 @@ def run_splits(ctx, tg, dis):
             if first2 != last1:
                 ctx.violation("impl-oracle", "the first phase space of the continued run is not the stored last record", case=case,
                               sig=dict(kind="restart", clause="loaded", split="decimal"))
-            additive = L[0] + L[1] == L[2]
+            additive = X[0] + X[1] == X[2]          # executed counts (equal to the mirror's L unless reported above)
             ctx.count("decimal-split:%s" % ("additive" if additive else "not-additive"))
             if fin2 != fin3:
                 nd = sum(1 for a, b in zip(fin2, fin3) if a != b)
                 if additive:
                     ctx.violation("impl-oracle", "continued run and uninterrupted run end in different phase spaces (%d cells differ) although both take "
-                                  "%d steps in all" % (nd, L[2]), case=case, sig=dict(kind="restart", clause="continuation", split="decimal"))
+                                  "%d steps in all" % (nd, X[2]), case=case, sig=dict(kind="restart", clause="continuation", split="decimal"))
                 else:
                     ctx.violation("impl-oracle", "continuing for T2=%s periods after T1=%s does not end where one run over %s periods ends: the two legs "
-                                  "take %d+%d steps, the single run %d (ceil(steps*rotations) counts a step more where N*T exceeds a whole number "
-                                  "by rounding)" % (T2, T1, T3, L[0], L[1], L[2]), case=case,
-                                  observed=dict(cells_differ=nd, steps=L), expected="the same phase space",
+                                  "take %d+%d steps, the single run %d (the step count main() derives from steps*rotations is not additive "
+                                  "on the step grid)" % (T2, T1, T3, X[0], X[1], X[2]), case=case,
+                                  observed=dict(cells_differ=nd, steps=X), expected="the same phase space",
                                   sig=dict(kind="restart", clause="continuation", cause="laststep-not-additive"))
             elif not additive:
-                dis.append(dict(case=case, detail="step counts %s do not add up and yet the final phase spaces are equal" % L,
+                dis.append(dict(case=case, detail="step counts %s do not add up and yet the final phase spaces are equal" % X,
                                 sig=dict(kind="restart", stage="correspondence", what="laststep")))
             ctx.case_done(("decimal-split", N, T1, T2), True)
         finally:
             hc.cleanup(wd)
+
+
+# ------------------------------------------------------------------------------------------------------------------
+# the mirror of main()'s laststep line against the extracted model (no binary involved)
+
+def gen_pairs(rng, n):
+    """(kind, steps: float, rot: float, expected or None)"""
+    ps = [("grid", 100.0, float(Fraction(k, 100)), k) for k in (30, 60, 7, 14, 0, 1, 100)]
+    def logint(hi):
+        return max(1, int(2 ** (rng.random() * math.log2(hi))))
+    while len(ps) < n:
+        r = rng.random()
+        if r < 0.35:
+            # on the step grid: T = the double nearest to k/N (N, k up to 2^30)
+            N, k = logint(2 ** 30), rng.choice([0, logint(2 ** 30), logint(2 ** 30), rng.randint(1, 4000)])
+            ps.append(("grid", float(N), float(Fraction(k, N)), k))
+        elif r < 0.5:
+            # a decimal run length as typed: a few digits
+            N = rng.choice([1, 2, 8, 10, 20, 25, 40, 50, 100, 125, 1000, rng.randint(1, 5000)])
+            T = dec(Decimal(rng.randint(0, 10 ** rng.randint(1, 7))) / Decimal(10) ** rng.randint(1, 7))
+            ps.append(("decimal", float(N), float(T), spec_steps(N, T)))
+        elif r < 0.9:
+            # N*T within 1e-15 .. 1e-9 (relative) of a whole number m, above or below
+            N, m = logint(2 ** 20), logint(2 ** 24)
+            d = Fraction(10) ** rng.randint(-15, -10) * rng.randint(1, 99) / 10 * rng.choice([1, 1, -1])
+            T = float(Fraction(m, N) * (1 + d))
+            xd = Fraction(N) * Fraction(T)
+            exp = None
+            if m * (1 + MARGIN) <= xd <= m + 1:
+                exp = m + 1
+            elif xd == m:
+                exp = m
+            ps.append(("near", float(N), T, exp))
+        else:
+            # non-integer steps per period (StepsPerRevolution given): mirror against model only
+            ps.append(("real", rng.uniform(0.5, 5000.0), rng.uniform(0.0, 20.0), None))
+    return ps
+
+
+def model_pairs(ctx, dis, n=None):
+    n = n or (10000 if ctx.quick() else 60000)
+    ps = gen_pairs(ctx.rng, n)
+    mt = "".join("laststep p%d %s %s\n" % (i, qtok(Fraction(s)), qtok(Fraction(r))) for i, (_, s, r, _) in enumerate(ps))
+    m = hc.run_model(mt)
+    nbad = 0
+    for i, (kind, s, r, exp) in enumerate(ps):
+        mod, mir = hc.pz(m["p%d" % i]["laststep"][0]), hc.laststep_of(s, r)
+        ctx.evaluations += 1
+        ctx.count("laststep-pair:" + kind + ("" if exp is None else "+theorem"))
+        if (mod != mir or (exp is not None and exp != mod)) and nbad < 5:
+            nbad += 1
+            dis.append(dict(case=dict(kind="laststep-pair", sub=kind, steps=s.hex(), rotations=r.hex()),
+                            detail=dict(model=mod, mirror=mir, theorem=exp),
+                            sig=dict(kind="restart", stage="correspondence", what="laststep-model")))
+    ctx.case_done("laststep-pairs", True)
